@@ -99,7 +99,7 @@ func runC18(c *eng.Ctx) {
 	case "slicelabels":
 		f.AstEvery("R3", "streaming loop after the buffer overflowed", func(n ast.Node) bool {
 			rs, ok := n.(*ast.RangeStmt)
-			return ok && strings.Contains(nodeText(rs.Body), "h.WriteString(v.Name)")
+			return ok && strings.Contains(nodeText(rs.Body), "h.WriteString(v.Name)") && !strings.Contains(nodeText(rs.Body), "range ")
 		}, "continues with the label that did not fit (ls[i:], i being the outer index)", func(n ast.Node) bool {
 			return eng.ExprString(n.(*ast.RangeStmt).X) == "ls[i:]"
 		}, 1)
